@@ -19,6 +19,9 @@ CONSTANTS
   RemOffs = {0}
   RemLens = {1}
   LabChoices = {FALSE}
+  IfConds <- NoConds
+  MaxIfs = 0
+  Rotate = FALSE
   FeatureSets <- NoFeatures
   Ctls = {"c", " "}
 INVARIANT TypeOK
